@@ -100,6 +100,7 @@ class FakeCommunicator(kiwipy.Communicator):
 
     def __init__(self):
         self.rpc = {}
+        self.bc = {}
 
     def add_rpc_subscriber(self, subscriber, identifier=None):
         self.rpc[identifier] = subscriber
@@ -115,10 +116,11 @@ class FakeCommunicator(kiwipy.Communicator):
         raise NotImplementedError
 
     def add_broadcast_subscriber(self, subscriber, identifier=None):
-        raise NotImplementedError
+        self.bc[identifier] = subscriber
+        return identifier
 
     def remove_broadcast_subscriber(self, identifier):
-        raise NotImplementedError
+        self.bc.pop(identifier)
 
     def task_send(self, task, no_reply=False):
         raise NotImplementedError
@@ -249,6 +251,42 @@ class Run:
             self.bind[n + 2] = reply
             self.bind[n + 3] = pfutures.unwrap_kiwi_future(reply)
             self.out = n + 3
+        elif fam == 'BCF':
+            fake = FakeCommunicator()
+            comm = communications.LoopCommunicator(fake, loop)
+            def listener(_comm, body, sender, subject, correlation_id):      # (as Process.broadcast_receive: not a coroutine)
+                self.calls += 1
+                if kind == 'raise':
+                    raise Injected(RAISE_EX)
+                return RET_VAL
+            comm.add_broadcast_subscriber(kiwipy.BroadcastFilter(listener, subject='wanted'), 'target')
+            made = []
+            orig = pfutures.create_task
+
+            def spy(*a, **k):
+                f = orig(*a, **k)
+                made.append(f)
+                return f
+            pfutures.create_task = spy
+            subject = 'unwanted' if scn.get('flt') else 'wanted'
+            try:
+                if scn.get('kw'):        # how kiwipy.LocalCommunicator delivers a broadcast
+                    reply = fake.bc['target'](fake, body={'msg': 1}, sender='env', subject=subject, correlation_id=None)
+                else:                    # ... and how the RabbitMQ communicator does
+                    reply = fake.bc['target'](fake, {'msg': 1}, 'env', subject, None)
+            except Exception as e:  # noqa  (the converted subscriber itself failed: shown as the outcome of its reply)
+                reply = kiwipy.Future()
+                reply.set_exception(e)
+            finally:
+                pfutures.create_task = orig
+            if scn.get('flt'):
+                self.bind[n + 1] = reply
+                self.out = n + 1
+            else:
+                if len(made) == 1:
+                    self.bind[n + 1] = made[0]
+                self.bind[n + 2] = reply
+                self.out = n + 2
         elif fam == 'RPC':
             self.proc = IdleProcess()
             self.bind[n + 1] = self.proc._schedule_rpc(self._callback_fn(kind))
@@ -373,6 +411,9 @@ class Run:
                             else:
                                 self.bind[mv['n']] = v
                                 grew = True
+                    elif mv['t'] == 'none':
+                        if v is not None:
+                            diffs.append(('futs[%d:%s].result' % (i, m['role']), None, repr(v)))
                     else:
                         if is_future(v) or isinstance(v, bool) or v != mv['n']:
                             diffs.append(('futs[%d:%s].result' % (i, m['role']), mv['n'], repr(v)))
